@@ -146,5 +146,7 @@ Answer(C, qn, qt) ==
 \* the answer for a query name as the API receives it: spelled, absolute.
 \* (Owner names in answers are compared case-insensitively by the bindings.)
 AnswerAbs(C, apex, full, qt) ==
-  IF InZoneAbs(apex, full) THEN Answer(C, RelOf(apex, full), qt) ELSE {OutOfZone}
+  IF InZoneAbs(apex, full)
+  THEN UNION {Answer(C, rel, qt) : rel \in {RelOf(apex, full)}}    \* (binds the VALUE of the name)
+  ELSE {OutOfZone}
 =============================================================================
